@@ -78,6 +78,12 @@ def gen_history(rng: Rng, tier: str, kmax=3, allow_fixture=True, allow_real_sour
                 extra.append({"op": "writeall", "name": arc, "tree": tree.gen_tree(r, maxdepth=3, nmax=6, block=knobs["block"], maxlen=maxlen)})
             pos = r.randint(0, len(s["ops"]))
             s["ops"][pos:pos] = extra
+        rf = rng.sub("refused%d" % j)
+        if allow_real_sources and rf.chance(0.12):
+            # a call that is refused, caught by the caller, and followed by the rest of the session
+            nm = "refused%d_%s" % (j, gen.gen_component(rf, "ascii"))
+            s["ops"].insert(rf.randint(0, len(s["ops"])), {"op": "refused", "name": nm,
+                                                             "how": rf.pick(["missing", "link_to_undecodable", "fifo", "surrogate_name", "missing_tree"])})
         used += rw.session_names(s)
         for op in s["ops"]:
             if op["op"] == "writeall":
